@@ -412,6 +412,10 @@ func cmdCheck(args []string) int {
 			if r.ex == nil || r.h.opts["novalidate"] != "" || r.h.opts["preempt"] != "" {
 				continue
 			}
+			if r.h.opts["nativeonly"] != "" {
+				validateNativeOnly(r)
+				continue
+			}
 			validateHarness(r, *nValidate)
 		}
 	}
@@ -880,6 +884,30 @@ func validateHarness(r *harnessResult, n int) {
 			}
 		} else {
 			r.mismatches = append(r.mismatches, fmt.Sprintf("sample %d: engine trace %v != native trace %v (inputs %v)", i, et, nt, inputs))
+		}
+	}
+}
+
+// validateNativeOnly runs a native-only validation driver (e.g. model vs real state machine).
+func validateNativeOnly(r *harnessResult) {
+	rel, name := harnessPkg(r.h)
+	path := filepath.Join(verifDir, "replays", fmt.Sprintf("validate-%s.json", r.h.name))
+	os.MkdirAll(filepath.Dir(path), 0o755)
+	os.WriteFile(path, []byte(`{"inputs":{}}`), 0o644)
+	defer os.Remove(path)
+	outcome, full, err := runNative(rel, name, r.h.name, path, 140)
+	if err != nil {
+		r.mismatches = append(r.mismatches, fmt.Sprintf("native validation driver failed to run: %v", err))
+		return
+	}
+	if outcome != "completed" {
+		r.mismatches = append(r.mismatches, "native validation driver: "+outcome)
+		return
+	}
+	for _, l := range strings.Split(full, "\n") {
+		if strings.HasPrefix(l, "VERIF-MODEL-VALIDATED: ") {
+			n, _ := strconv.Atoi(strings.TrimSpace(strings.TrimPrefix(l, "VERIF-MODEL-VALIDATED: ")))
+			r.validated += n
 		}
 	}
 }
